@@ -36,6 +36,7 @@ func (c *Client) cancelQuery() error {
 		Buf: make([]byte, 1),
 	}
 	proto.ClientCodeCancel.Encode(&b)
+	verifGate("cancel.beforeWrite")
 
 	var retErr error
 	if err := c.flushBuf(ctx, &b); err != nil {
@@ -43,6 +44,7 @@ func (c *Client) cancelQuery() error {
 	}
 
 	// Always close connection to prevent further queries.
+	verifGate("cancel.beforeClose")
 	if err := c.Close(); err != nil {
 		retErr = errors.Join(retErr, errors.Wrap(err, "close"))
 	}
@@ -393,10 +395,12 @@ func (c *Client) sendInput(ctx context.Context, info proto.ColInfoInput, q Query
 			// No callback, single block.
 			break
 		}
+		verifGate("sender.beforeInputFlush")
 		// Flushing the buffer to prevent high memory consumption.
 		if err := c.flush(ctx); err != nil {
 			return errors.Wrap(err, "flush")
 		}
+		verifGate("sender.afterInputFlush")
 		if err := f(ctx); err != nil {
 			if errors.Is(err, io.EOF) {
 				// No more data.
@@ -697,12 +701,15 @@ func (c *Client) Do(ctx context.Context, q Query) (err error) {
 	}
 	g.Go(func() error {
 		// Sending data.
+		verifGate("sender.start")
 		if err := c.sendQuery(ctx, q); err != nil {
 			return errors.Wrap(err, "send query")
 		}
+		verifGate("sender.afterEncodeQuery")
 		if err := c.flush(ctx); err != nil {
 			return errors.Wrap(err, "flush")
 		}
+		verifGate("sender.afterQueryFlush")
 		var info proto.ColInfoInput
 		if colInfo != nil {
 			c.lg.Debug("Waiting for column info")
@@ -713,12 +720,15 @@ func (c *Client) Do(ctx context.Context, q Query) (err error) {
 				info = v
 			}
 		}
+		verifGate("sender.beforeInput")
 		if err := c.sendInput(ctx, info, q); err != nil {
 			return errors.Wrap(err, "send input")
 		}
+		verifGate("sender.beforeFinalFlush")
 		if err := c.flush(ctx); err != nil {
 			return errors.Wrap(err, "flush")
 		}
+		verifGate("sender.done")
 		return nil
 	})
 	g.Go(func() error {
@@ -732,6 +742,7 @@ func (c *Client) Do(ctx context.Context, q Query) (err error) {
 			if ctx.Err() != nil {
 				return ctx.Err()
 			}
+			verifGate("recv.beforePacket")
 			code, err := c.packet(ctx)
 			if err != nil {
 				var opErr *net.OpError
@@ -740,6 +751,7 @@ func (c *Client) Do(ctx context.Context, q Query) (err error) {
 				}
 				return errors.Wrap(err, "packet")
 			}
+			verifGate("recv.afterPacketCode")
 			switch code {
 			case proto.ServerCodeData, proto.ServerCodeTotals:
 				if err := c.decodeBlock(ctx, decodeOptions{
@@ -756,6 +768,7 @@ func (c *Client) Do(ctx context.Context, q Query) (err error) {
 					if IsException(err) {
 						// Prevent query cancellation on exception.
 						gotException.Store(true)
+						verifGate("recv.afterException")
 					}
 					return errors.Wrap(err, "handle packet")
 				}
@@ -764,6 +777,7 @@ func (c *Client) Do(ctx context.Context, q Query) (err error) {
 	})
 	g.Go(func() error {
 		<-done
+		verifGate("watch.afterDone")
 		// Handling query cancellation if needed.
 		if ctx.Err() != nil && !gotException.Load() {
 			err := multierr.Append(ctx.Err(), c.cancelQuery())
